@@ -12,6 +12,7 @@ class _Scenario:
         self.chunks = []           # list of (stream_type, bytes)
         self.fail_after = None     # raise DockerException after yielding this many chunks (None = no failure)
         self.write_result = True   # container writes ANALYSIS.root into the /results mount
+        self.write_early = False   # ... and does so BEFORE it streams its output / fails (a job that crashes in teardown)
         self.result_content = b"ROOTFILE"
         self.filelist_seen = None
 
@@ -36,8 +37,15 @@ class _Docker:
         except Exception:
             SCENARIO.filelist_seen = None
 
+        def _write():
+            import os
+            with open(os.path.join(str(results), "ANALYSIS.root"), "wb") as f:
+                f.write(SCENARIO.result_content)
+
         def gen():
             n = 0
+            if SCENARIO.write_early and SCENARIO.write_result and results is not None:
+                _write()
             for c in SCENARIO.chunks:
                 if SCENARIO.fail_after is not None and n == SCENARIO.fail_after:
                     raise exceptions.DockerException(["docker", "run"], 1)
@@ -45,10 +53,8 @@ class _Docker:
                 n += 1
             if SCENARIO.fail_after is not None and n <= SCENARIO.fail_after:
                 raise exceptions.DockerException(["docker", "run"], 1)
-            if SCENARIO.write_result and results is not None:
-                import os
-                with open(os.path.join(str(results), "ANALYSIS.root"), "wb") as f:
-                    f.write(SCENARIO.result_content)
+            if SCENARIO.write_result and results is not None and not SCENARIO.write_early:
+                _write()
         return gen()
 
 
